@@ -237,7 +237,8 @@ fn populate(ns: &Ns, g: &GenText) -> Result<(), String> {
   drop(f);
   if std::fs::read_to_string("/proc/bus/input/devices").map_err(|e| format!("{}", e))? != g.text { return Err("the fabricated device list is not what /proc/bus/input/devices shows".to_string()); }
   if let Ok(rd) = std::fs::read_dir("/sys/devices") { for e in rd.flatten() { let _ = std::fs::remove_dir_all(e.path()); } }
-  if let Ok(rd) = std::fs::read_dir("/dev/input") { for e in rd.flatten() { let _ = std::fs::remove_file(e.path()); } }
+  if let Ok(rd) = std::fs::read_dir("/dev/input") { for e in rd.flatten() { if e.path().is_dir() && !e.path().is_symlink() { let _ = std::fs::remove_dir_all(e.path()); } else { let _ = std::fs::remove_file(e.path()); } } }
+  let _ = std::fs::create_dir_all("/dev/input/by-id");
   for e in &g.entries {
     if let (Some(s), Some(n)) = (e.sysfs(), e.event_number()) {
       let d = format!("/sys{}/event{}", s, n);
@@ -246,6 +247,8 @@ fn populate(ns: &Ns, g: &GenText) -> Result<(), String> {
       // a sibling that is not an event node, as on a real system
       let _ = std::fs::create_dir_all(format!("/sys{}/capabilities", s));
       std::fs::write(format!("/dev/input/event{}", n), b"").map_err(|e| format!("{}", e))?;
+      // the udev-style alias of the same node
+      let _ = std::os::unix::fs::symlink(format!("../event{}", n), format!("/dev/input/by-id/usb-device-{}-event-kbd", n));
     }
     else if let Some(s) = e.sysfs() { let _ = std::fs::create_dir_all(format!("/sys{}", s)); }
   }
@@ -332,7 +335,11 @@ fn check_end_to_end(ns: &Ns, bin: &str, g: &GenText, per_entry: &[Option<(String
     Err(e) => { out.count("e2e_setup_errors"); out.notes.insert("e2e_setup_error".to_string(), json!(e)); return; }
   }
   // route 2: each device by name with --only-if-keyboard
-  for (node, sel) in &all_nodes {
+  for (i, (node, sel)) in all_nodes.iter().enumerate() {
+    // every third device is named through its by-id symlink, another third with a doubled slash
+    let n: String = node["/dev/input/event".len()..].to_string();
+    let node = &match (i + g.entries.len()) % 3 { 0 => format!("/dev/input/by-id/usb-device-{}-event-kbd", n), 1 => format!("/dev/input//event{}", n), _ => node.clone() };
+    if node.contains("by-id") { out.count("e2e_dev_file_runs_via_symlink"); }
     let mut a2 = base.clone(); a2.push("--only-if-keyboard".into()); a2.push("--dev-file".into()); a2.push(node.clone());
     if let Ok((_, se, _)) = run_bin(bin, &a2) {
       match selected_from_verbose(&se) {
